@@ -2,6 +2,7 @@
    correspondence harness, replaying the histories of Model.run_history and producing
    the API-level projection (Model.run_history_obs format). *)
 From LLGoV Require Import C06.Model C06.Simple C06.SimpleRun C06.Grow.
+From Coq Require Import FMapPositive.
 Local Open Scope N_scope.
 
 Definition G_lookup := glookup N N keq shash.
@@ -51,3 +52,62 @@ Definition check_all (xe : (config * list op * bool) * list (list N)) : list N :
   let '(c, ops, chk) := x in
   check_both xe ++
   (if negb chk || trace_eqb (grow_only x) (map_obs ops expected) then [] else [3]).
+
+(* ---------- comparison by trace hash ----------
+   The case files only carry the operations and two hashes of the observed trace (exact
+   trace, API-level projection): parsing the numerals of whole traces dominated the run
+   time.  On a mismatch the driver re-runs the history with the full trace. *)
+Definition HM : N := 2305843009213693951.          (* 2^61 - 1 *)
+Definition hrow (h : N) (row : list N) : N :=
+  fold_left (fun a x => (a * 1000003 + x + 1) mod HM) row ((h * 1000003 + 7) mod HM).
+Definition trace_hash (t : list (list N)) : N := fold_left hrow t 1.
+
+Definition check_all_h (xe : (config * list op * bool) * (N * N)) : list N :=
+  let '(x, (hfull, hobs)) := xe in
+  let '(c, ops, chk) := x in
+  (if trace_hash (run_history (c, ops)) =? hfull then [] else [1]) ++
+  (if negb chk || (trace_hash (simple_only x) =? hobs) then [] else [2]) ++
+  (if negb chk || (trace_hash (grow_only x) =? hobs) then [] else [3]).
+
+(* growth statistics of the layer-2 replay of one history: max B, steps growing, steps in a
+   same-size growth *)
+Definition grow_stats_of (x : config * list op * bool) : N * N * N :=
+  let '(c, ops, chk) := x in grow_stats (c_upd c) (gempty N N (hintB 64 (c_hint c) 0)) ops 0 0 0.
+
+(* ---------- compact case encoding ----------
+   A history is written as a flat key table (t f u l per key, see Model.K) and a flat list
+   of small numbers: 0 keyindex value = set, 1 i = get, 2 i = get1, 3 i = delete, 4 = clear,
+   5 = len, 6 s = new iterator, 7 s = iterator step, 8 = range loop.  (Constructor
+   applications and big numerals are what Coq spends its time on when reading the cases.) *)
+Fixpoint decode_keys (l : list N) (i : N) (acc : PositiveMap.t N) : PositiveMap.t N :=
+  match l with
+  | t :: f :: u :: lo :: r => decode_keys r (i + 1) (PositiveMap.add (N.succ_pos i) (K t f u lo) acc)
+  | _ => acc
+  end.
+
+Fixpoint decode_ops (ks : PositiveMap.t N) (l : list N) : list op :=
+  let key i := match PositiveMap.find (N.succ_pos i) ks with Some k => k | None => 0 end in
+  match l with
+  | [] => []
+  | c :: r =>
+    if c =? 4 then OClear :: decode_ops ks r
+    else if c =? 5 then OLen :: decode_ops ks r
+    else if c =? 8 then ODrain :: decode_ops ks r
+    else match r with
+    | [] => []
+    | a :: r1 =>
+      if c =? 1 then OGet (key a) :: decode_ops ks r1
+      else if c =? 2 then OGet1 (key a) :: decode_ops ks r1
+      else if c =? 3 then ODel (key a) :: decode_ops ks r1
+      else if c =? 6 then OIterNew a :: decode_ops ks r1
+      else if c =? 7 then OIterNext a :: decode_ops ks r1
+      else match r1 with
+      | [] => []
+      | b :: r2 => OSet (key a) b :: decode_ops ks r2
+      end
+    end
+  end.
+
+Definition check_flat (xe : (config * list N * list N * bool) * (N * N)) : list N :=
+  let '((c, kf, of, chk), hh) := xe in
+  check_all_h ((c, decode_ops (decode_keys kf 0 (PositiveMap.empty N)) of, chk), hh).
